@@ -183,8 +183,7 @@ var vfC14CfgShape = vf.CallShape{
 	Names:   []string{"v1voteDAO", SetContractOwner, "appendAdmin"},
 	SymName: []int{1},
 	MaxArgs: 1,
-	SymStr:  []int{1},
-	ArgKinds: 2,
+	Alts:    []vf.Alt{vf.ANull(), vf.ASym(1)},
 }
 
 func VF_C14_a_cfg() {
@@ -215,16 +214,27 @@ func VF_C14_a_cfg() {
 	vfValidateNoPanic(tx, cid, vf.Bool("isPublic"), doc, string(recipient) == AergoName, "C14.a.cfg")
 }
 
+// vfAlts: the argument alternatives of a tier: null, a symbolic string, the given well-formed strings, a number, a
+// huge number, true, false, [], {} and (param nest=1) [s], {"k":s}.
+func vfAlts(tokens ...string) []vf.Alt {
+	a := []vf.Alt{vf.ANull(), vf.ASym(1)}
+	for _, t := range tokens {
+		a = append(a, vf.AStr(t))
+	}
+	a = append(a, vf.ANum("1", 1), vf.ANum("1e30", 1e30), vf.ABool(true), vf.ABool(false), vf.AArr(), vf.AObj())
+	if vf.Param("nest", 0) == 1 {
+		a = append(a, vf.ASym(3), vf.AArrSym(), vf.AObjSym())
+	}
+	return a
+}
+
 // aergo.system payload shapes (dpos network: ValidateSystemTx)
 func vfSystemShape() *vf.CallShape {
 	names := []string{"v1stake", "v1unstake", "v1voteBP", "v1voteDAO"}
 	sh := &vf.CallShape{
 		SymName: []int{2},
 		MaxArgs: vf.Param("maxArgs", 2),
-		SymStr:  []int{1},
-		Tokens:  []string{vfTokPeerID, "BPCOUNT", "13"},
-		Nums:    []float64{1, 1e30}, NumText: []string{"1", "1e30"},
-		Nest: vf.Param("nest", 0) == 1,
+		Alts:    vfAlts(vfTokPeerID, "BPCOUNT", "13"),
 	}
 	if k := vf.Param("name", -1); k >= 0 && k < len(names) {
 		sh.Names = names[k : k+1]
@@ -250,10 +260,7 @@ func vfNameShape() *vf.CallShape {
 	sh := &vf.CallShape{
 		SymName: []int{2},
 		MaxArgs: vf.Param("maxArgs", 2),
-		SymStr:  []int{1},
-		Tokens:  []string{vfTokName, vfTokBadNm, vfTokAddr},
-		Nums:    []float64{1, 1e30}, NumText: []string{"1", "1e30"},
-		Nest: vf.Param("nest", 0) == 1,
+		Alts:    vfAlts(vfTokName, vfTokBadNm, vfTokAddr),
 	}
 	if k := vf.Param("name", -1); k >= 0 && k < len(names) {
 		sh.Names = names[k : k+1]
